@@ -445,6 +445,8 @@ def run(ctx, env):
                 arm = None
                 if dtt:
                     arm = dtt[1].get(d, dtt[2])
+                if (arm is None or arm[0] != "variant") and dtb is not None and d is not None:
+                    arm = result_for_value(an, dtb, d)      # ranges / or-patterns / guards instead of a plain table
                 dt = arm[2] if arm and arm[0] == "variant" else None
                 kinds = prod.get(dt, set())
                 ok = bool(kinds) and kinds <= fv
@@ -469,6 +471,12 @@ def run(ctx, env):
     records.one_map_per_record_rule(ctx, prog, an, "R13.4", "variable_versions::ipfix::Data::parse_be", "ipfix")
     # R13.5
     tb = prog.impl_fn("netflow_common::NetflowCommon", "TryFrom<&NetflowPacket>", "try_from")
+    if tb is not None and not any(tb.term(x)["k"] == "switch" and peel(an.op(tb, tb.term(x)["op"]))[0] == "discr" for x in tb.live_blocks()):
+        # the conversion may merely delegate (`value.as_netflow_common()`): the per-kind match then lives there
+        for _, t0, c0 in tb.calls():
+            if c0 is not None and c0.local and c0.kind == "Item" and c0.path in prog.bodies and t0["args"] and peel(an.op(tb, t0["args"][0])) == ("arg", 1):
+                tb = prog.bodies[c0.path]
+                break
     if ctx.anchor("R13.5", "TryFrom<&NetflowPacket>", tb):
         adt = prog.adts["NetflowPacket"]
         vi = {v["name"]: v["vi"] for v in adt["variants"]}
